@@ -163,9 +163,10 @@ pub fn evaluate(d: &mut Driver, case: &Case) -> Outcome {
             let ir = imp::run_impl(&case.src, &case.path, case.fuel.max(200_000), 48);
             let out_of_statements = matches!(ir.end, imp::End::Fuel) && imp::last_fuel_was_statement_budget();
             let skipped = matches!(ir.end, imp::End::Fuel) && !out_of_statements;
-            // transcendental MATH results: both sides are faithful, not identical (Rust computes asinh / acosh /
-            // atanh by its own formulas, the model calls libm): compare numerically
-            let libm = case.tags.iter().any(|t| t == "math-libm" || t.starts_with("MATH."));
+            // transcendental MATH results: the implementation and the model call the same platform libm for every
+            // function libm has, so those results are compared exactly; Rust computes asinh / acosh / atanh by its
+            // own formulas (faithful, not identical to libm's): only programs calling these are compared numerically
+            let libm = case.tags.iter().any(|t| t == "math-libm" || t.starts_with("MATH.")) && ["ASINH(", "ACOSH(", "ATANH("].iter().any(|f| case.src.contains(f));
             // cases outside the model's domain (tagged by their generator, with the reason in DESIGN.md) are run for the
             // implementation-only oracle alone
             let impl_only = case.tags.iter().any(|t| t == "impl-only");
